@@ -608,6 +608,7 @@ func runC10(p *Program, r *Report) {
 	c10senders(p, r, "C10.senders")
 	c10loop(p, r, "C10.loop")
 	c10child(p, r, "C10.child")
+	c09ctx(p, r, "C10.child.ctx")
 }
 
 func c10loop(p *Program, r *Report, rule string) {
